@@ -351,6 +351,39 @@ func main() {
 	for i := 0; i < nCases; i++ {
 		jobs <- genSpec(i, run.Rand(uint64(i)), codes, loopPct)
 	}
+	// error bodies that exactly fill what a client is prepared to read of one (8 KiB), and one byte less:
+	// a plain message behind a standard or a custom code, stable from hop to hop, so every hop's body has
+	// that size
+	k := 0
+	for _, site := range []string{"GetBlob", "GetManifest", "DeleteTag", "PushManifest", "Tags", "MountBlob", "PushBlobChunked.start"} {
+		for _, code := range []string{"MANIFEST_UNKNOWN", "BLOB_UNKNOWN", "DENIED", customCodes[0]} {
+			for _, target := range []int{8191, 8192, 8190} {
+				for _, detail := range []string{"", `{"a":1,"b":"two"}`} {
+					var dj json.RawMessage
+					if detail != "" {
+						dj = json.RawMessage(detail)
+					}
+					one, _ := ociregistry.MarshalError(ociregistry.NewError("m", code, dj))
+					msg := strings.Repeat("m", target-len(one)+1)
+					if body, _ := ociregistry.MarshalError(ociregistry.NewError(msg, code, dj)); len(body) != target {
+						continue // the size did not come out as computed: nothing to learn from this one
+					}
+					sp := spec{Case: nCases + k, Site: site, Code: code, Origin: "wire", Wrap: "bare", MsgClass: "fills-the-limit", Msg: msg, DetailClass: "none", WireCode: code}
+					if detail != "" {
+						sp.DetailClass, sp.Detail = "object", detail
+					}
+					if st, ok := tableStatus[code]; ok {
+						sp.ExpStatus, sp.StatusSrc = st, "table"
+					} else {
+						sp.ExpStatus, sp.StatusSrc = 500, "default"
+					}
+					k++
+					run.Count(fmt.Sprintf("error_bodies_of_%d_bytes", target), 1)
+					jobs <- sp
+				}
+			}
+		}
+	}
 	close(jobs)
 	wg.Wait()
 
@@ -420,6 +453,7 @@ func main() {
 	for _, d := range details {
 		run.FloorCounter("detail:"+d.class, 1)
 	}
+	run.FloorCounter("error_bodies_of_8192_bytes", 20)
 	for _, m := range msgKinds {
 		run.FloorCounter("msg:"+m, 1)
 	}
